@@ -226,7 +226,7 @@ namespace detail
 			x2 = linearRand(genType(-1), genType(1));
 
 			w = x1 * x1 + x2 * x2;
-		} while(w > genType(1));
+		} while(w > genType(1) || w == genType(0));
 
 		return static_cast<genType>(x2 * Deviation * Deviation * sqrt((genType(-2) * log(w)) / w) + Mean);
 	}
